@@ -328,3 +328,7 @@ func (t *traceWriter) Close() error {
 }
 
 func isNotFound(err error) bool { return status.Code(err) == codes.NotFound }
+
+func newWitnessFromMap(m map[string]witness.LogInfo, signers []note.Signer) (*witness.Witness, error) {
+	return witness.New(witness.Opts{Persistence: inmemory.NewPersistence(), Signers: signers, KnownLogs: m})
+}
